@@ -159,3 +159,55 @@ func StaticCalls(p *packages.Package, n ast.Node) []string {
 	})
 	return res
 }
+
+// CallSite is one static call of a function: the enclosing function and the
+// source text of the arguments.
+type CallSite struct {
+	Caller string
+	Args   []string
+}
+
+// CallSites lists every call in the given packages whose statically resolved
+// callee name equals callee ("src:<text>": the called expression prints as text,
+// for calls through function variables; "method:<name>": any method of that name) (calls inside function literals are attributed to
+// the enclosing declared function).
+func CallSites(ps []*packages.Package, callee string) []CallSite {
+	var res []CallSite
+	for _, p := range ps {
+		for _, f := range p.Syntax {
+			for _, d := range f.Decls {
+				fd, ok := d.(*ast.FuncDecl)
+				if !ok || fd.Body == nil {
+					continue
+				}
+				name := fd.Name.Name
+				if r := ex.RecvName(fd); r != "" {
+					name = r + "." + name
+				}
+				name = strings.TrimPrefix(strings.TrimPrefix(p.PkgPath, Module), "/") + "." + name
+				ast.Inspect(fd.Body, func(x ast.Node) bool {
+					if c, ok := x.(*ast.CallExpr); ok && (CalleeName(p, c) == callee ||
+						(strings.HasPrefix(callee, "src:") && Src(p, c.Fun) == callee[4:]) ||
+						(strings.HasPrefix(callee, "method:") && isMethodCall(p, c, callee[7:]))) {
+						cs := CallSite{Caller: name}
+						for _, a := range c.Args {
+							cs.Args = append(cs.Args, Src(p, a))
+						}
+						res = append(res, cs)
+					}
+					return true
+				})
+			}
+		}
+	}
+	return res
+}
+
+func isMethodCall(p *packages.Package, c *ast.CallExpr, name string) bool {
+	sel, ok := c.Fun.(*ast.SelectorExpr)
+	if !ok || sel.Sel.Name != name {
+		return false
+	}
+	_, isFunc := p.TypesInfo.Uses[sel.Sel].(*types.Func)
+	return isFunc
+}
